@@ -293,7 +293,11 @@ func modelEvents(h []fsops.Op) []string {
 					seq = append(seq, rel+":"+ev.Op.String())
 				}
 			})
-			for i, op := range h {
+			var steps []fsops.Op
+			for _, op := range h {
+				steps = append(steps, fsops.Steps(op)...)
+			}
+			for i, op := range steps {
 				if err := fsops.Apply(modelFS{}, root, op, i); err != nil {
 					inapplicable = "INAPPLICABLE:" + op.String()
 					return
